@@ -7,7 +7,7 @@ _reg('argon', ['G1', 'G2', 'G4'])
 _reg('aes', ['A1', 'A2', 'A3', 'A5'])
 _reg('isa', ['I1', 'I4', 'I6'])
 _reg('jit', ['J1'])
-_reg('recip', ['R1', 'R2'])
+_reg('recip', ['R1', 'R2', 'R3'])
 _reg('api', ['H1', 'D2', 'I7'])
 _reg('life', ['H6', 'H7', 'H3'])
 _reg('sshash', ['S4', 'D1', 'S1'])
@@ -31,7 +31,7 @@ PROPS = {
  'C04': dict(level='translation_validation', lemmas=['J1', 'I1'],
    files=['src/jit_compiler_x86.cpp', 'src/jit_compiler_x86.hpp', 'src/jit_compiler_x86_static.S', 'src/bytecode_machine.cpp', 'src/bytecode_machine.hpp', 'src/vm_interpreted.cpp', 'src/vm_compiled.cpp', 'src/instruction_weights.hpp'],
    explanation='TODO', trusted=['x86-64 semantics of engine/x86sem.py (Intel SDM transcription for the ~60 forms used)', 'doc/specs.md chapter 5 transcription'], outside=[]),
- 'C18': dict(level='other', lemmas=['R1', 'R2'],
+ 'C18': dict(level='other', lemmas=['R1', 'R2', 'R3'],
    files=['src/reciprocal.c', 'src/reciprocal.h', 'src/asm/randomx_reciprocal.inc', 'src/common.hpp', 'src/bytecode_machine.cpp', 'src/jit_compiler_x86.cpp', 'src/dataset.cpp', 'src/superscalar.cpp'],
    explanation='TODO', trusted=['Euclidean characterisation of unsigned division'], outside=[]),
  'C08': dict(level='translation_validation', lemmas=['D2', 'D1', 'S4'],
